@@ -122,6 +122,49 @@ struct PoolCase
     bool is_ip = false;
     std::map<size_t, uint64_t> live; // offset -> pattern seed
     uint64_t ctr = 1;
+    // NAMES.  The property does not say WHICH free cell an allocation returns.  Ops and result lines therefore name
+    // cells not by their real address but by the cell a reference LIFO discipline (the model's, mirrored by the
+    // generator) would hand out at that point of the history; the harness binds each name to the real cell the code
+    // returned.  Everything about the real cell (zone, boundary, alignment, overlap, contents) is judged by the oracle.
+    std::vector<size_t> name_free;  // names not handed out, back() = next one
+    std::map<size_t, size_t> bound; // name -> real offset
+    void names_init()
+    {
+        name_free.clear();
+        bound.clear();
+        for (size_t i = 0; i < cap; i++) name_free.push_back(i * e);
+    }
+    // the name of the cell just handed out (real offset `off`)
+    std::string name_alloc(size_t off)
+    {
+        if (name_free.empty()) return "?" + std::to_string(off); // more cells than the capacity: the oracle has failed already
+        size_t nm = name_free.back();
+        name_free.pop_back();
+        bound[nm] = off;
+        return std::to_string(nm);
+    }
+    // the real cell behind a name; a name that is not handed out stands for "some free cell": any real free cell
+    bool real_of(size_t nm, size_t &off)
+    {
+        auto it = bound.find(nm);
+        if (it != bound.end())
+        {
+            off = it->second;
+            return true;
+        }
+        for (size_t i = 0; i < cap; i++)
+            if (!live.count(i * e))
+            {
+                off = i * e;
+                return true;
+            }
+        return false;
+    }
+    void name_release(size_t nm)
+    {
+        bound.erase(nm);
+        name_free.push_back(nm);
+    }
 
     void fill(size_t off)
     {
@@ -180,6 +223,39 @@ struct MPoolCase
     std::map<std::pair<size_t, size_t>, uint64_t> live; // (zone, offset) -> pattern seed
     size_t cap = 0;                                     // sum of the cells of all zones engaged so far
     uint64_t ctr = 1;
+    // NAMES (see PoolCase): (zone, offset) of the cell the reference LIFO discipline would hand out
+    typedef std::pair<size_t, size_t> Cell;
+    std::vector<Cell> name_free;
+    std::map<Cell, Cell> bound; // name -> real (zone, offset)
+    void names_engage(size_t k, size_t n, size_t e)
+    {
+        for (size_t i = 0; i < n; i++) name_free.push_back({k, i * e});
+    }
+    std::string name_alloc(Cell real)
+    {
+        if (name_free.empty()) return "?" + std::to_string(real.first) + ":" + std::to_string(real.second);
+        Cell nm = name_free.back();
+        name_free.pop_back();
+        bound[nm] = real;
+        return std::to_string(nm.first) + ":" + std::to_string(nm.second);
+    }
+    bool real_of(Cell nm, Cell &real)
+    {
+        auto it = bound.find(nm);
+        if (it != bound.end())
+        {
+            real = it->second;
+            return true;
+        }
+        for (size_t k = 0; k < zones.size(); k++)
+            for (size_t i = 0; i < zones[k].n; i++)
+                if (!live.count({k, i * zones[k].e}))
+                {
+                    real = {k, i * zones[k].e};
+                    return true;
+                }
+        return false;
+    }
 
     // which zone does the pointer point into?  (-1: none)
     long zone_of(const void *q) const
@@ -343,6 +419,14 @@ struct SopCase
     std::set<std::pair<size_t, size_t>> live; // (zone, offset); zone 0 = the pool's own storage
     std::vector<std::pair<char *, size_t>> extra; // zones engaged through freelist(): base, cells
     size_t cap = 0;
+    // NAMES (see PoolCase): (zone, offset) of the cell the reference LIFO discipline would hand out
+    typedef std::pair<size_t, size_t> Cell;
+    std::vector<Cell> name_free;
+    std::map<Cell, Cell> bound; // name -> real (zone, offset)
+    void names_engage(size_t k, size_t n, size_t st)
+    {
+        for (size_t i = 0; i < n; i++) name_free.push_back({k, i * st});
+    }
     ~SopCase()
     {
         p.reset();
@@ -783,6 +867,7 @@ static void run_op(const std::vector<std::string> &w, const std::string &, out &
             PC->e = strtoul(w[2].c_str(), 0, 10);
             PC->cap = strtoul(w[3].c_str(), 0, 10);
             PC->zone.reset(new exact_buf(PC->e * PC->cap));
+            PC->names_init();
             PC->is_ip = k == "ipool";
             if (PC->is_ip)
             {
@@ -818,6 +903,7 @@ static void run_op(const std::vector<std::string> &w, const std::string &, out &
                 return;
             }
             SC->cap = cap;
+            SC->names_engage(0, cap, SC->p->storage());
             o.result = s(SC->p->storage()) + " " + s(SC->p->avail());
             if (SC->p->avail() != cap) o.fail("fresh object pool: avail != Capacity");
             if ((uintptr_t)SC->p->base() % std::max(al, (size_t)8)) o.fail("storage misaligned for T");
@@ -922,6 +1008,7 @@ static void run_op(const std::vector<std::string> &w, const std::string &, out &
             size_t before = pool_avail(&MC->head);
             MC->zones.push_back(MZone{std::unique_ptr<exact_buf>(new exact_buf(n * e)), n, e});
             pool_engage(&MC->head, MC->zones.back().buf->p, n * e, e);
+            MC->names_engage(MC->zones.size() - 1, n, e);
             MC->cap += n;
             o.result = s(pool_avail(&MC->head));
             if (pool_avail(&MC->head) != before + n) o.fail("pool_engage of " + s(n) + " cells: avail " + s(before) + " -> " + s(pool_avail(&MC->head)));
@@ -931,13 +1018,23 @@ static void run_op(const std::vector<std::string> &w, const std::string &, out &
         else if (op == "a")
         {
             void *q = pool_alloc(&MC->head);
-            o.result = MC->name(q) + " " + s(pool_avail(&MC->head));
+            long zk = q ? MC->zone_of(q) : -1;
+            o.result = (!q ? std::string("null") : zk < 0 ? std::string("outside") : MC->name_alloc({(size_t)zk, (size_t)((uint8_t *)q - MC->zones[(size_t)zk].buf->p)})) + " " + s(pool_avail(&MC->head));
             MC->check_new(q, o);
             o.tag(q ? (MC->zones.size() > 1 ? "alloc-multizone" : "alloc") : "alloc-null");
         }
         else if (op == "f")
         {
-            size_t k = strtoul(w[1].c_str(), 0, 10), off = strtoul(w[2].c_str(), 0, 10);
+            MPoolCase::Cell nm{strtoul(w[1].c_str(), 0, 10), strtoul(w[2].c_str(), 0, 10)}, real;
+            if (!MC->bound.count(nm) || !MC->real_of(nm, real))
+            {
+                o.result = "skip";
+                o.fail("history cannot continue: cell " + w[1] + ":" + w[2] + " was never handed out");
+                return;
+            }
+            MC->bound.erase(nm);
+            MC->name_free.push_back(nm);
+            size_t k = real.first, off = real.second;
             MC->live.erase({k, off});
             pool_free(&MC->head, MC->zones[k].buf->p + off);
             o.result = s(pool_avail(&MC->head));
@@ -945,7 +1042,9 @@ static void run_op(const std::vector<std::string> &w, const std::string &, out &
         }
         else if (op == "in")
         {
-            size_t k = strtoul(w[1].c_str(), 0, 10), off = strtoul(w[2].c_str(), 0, 10);
+            MPoolCase::Cell nm{strtoul(w[1].c_str(), 0, 10), strtoul(w[2].c_str(), 0, 10)}, real;
+            if (!MC->real_of(nm, real)) real = nm;
+            size_t k = real.first, off = real.second;
             int r = pool_in_freelist(&MC->head, MC->zones[k].buf->p + off);
             o.result = r ? "1" : "0";
             if ((r != 0) == (MC->live.count({k, off}) != 0)) o.fail("pool_in_freelist disagrees with the shadow map");
@@ -967,13 +1066,20 @@ static void run_op(const std::vector<std::string> &w, const std::string &, out &
         if (op == "a")
         {
             void *q = pool_alloc(&PC->head);
-            o.result = (q ? s((uint8_t *)q - PC->zone->p) : std::string("null")) + " " + s(pool_avail(&PC->head));
+            o.result = (q ? PC->name_alloc((size_t)((uint8_t *)q - PC->zone->p)) : std::string("null")) + " " + s(pool_avail(&PC->head));
             PC->check_new(q, o);
             o.tag(q ? "alloc" : "alloc-null");
         }
         else if (op == "f")
         {
-            size_t off = strtoul(w[1].c_str(), 0, 10);
+            size_t nm = strtoul(w[1].c_str(), 0, 10), off = 0;
+            if (!PC->bound.count(nm) || !PC->real_of(nm, off))
+            {
+                o.result = "skip";
+                o.fail("history cannot continue: cell " + s(nm) + " was never handed out");
+                return;
+            }
+            PC->name_release(nm);
             PC->live.erase(off);
             pool_free(&PC->head, PC->zone->p + off);
             o.result = s(pool_avail(&PC->head));
@@ -981,7 +1087,8 @@ static void run_op(const std::vector<std::string> &w, const std::string &, out &
         }
         else if (op == "in")
         {
-            size_t off = strtoul(w[1].c_str(), 0, 10);
+            size_t nm = strtoul(w[1].c_str(), 0, 10), off = 0;
+            if (!PC->real_of(nm, off)) off = nm;
             int r = pool_in_freelist(&PC->head, PC->zone->p + off);
             o.result = r ? "1" : "0";
             if ((r != 0) == (PC->live.count(off) != 0)) o.fail("pool_in_freelist disagrees with the shadow map");
@@ -998,7 +1105,7 @@ static void run_op(const std::vector<std::string> &w, const std::string &, out &
         if (op == "g")
         {
             void *q = ip.get();
-            o.result = (q ? s((uint8_t *)q - PC->zone->p) : std::string("null")) + " " + su(ip.room()) + " " + su(ip.avail());
+            o.result = (q ? PC->name_alloc((size_t)((uint8_t *)q - PC->zone->p)) : std::string("null")) + " " + su(ip.room()) + " " + su(ip.avail());
             PC->check_new(q, o);
             o.tag(q ? "get" : "get-null");
         }
@@ -1011,7 +1118,14 @@ static void run_op(const std::vector<std::string> &w, const std::string &, out &
             }
             else
             {
-                size_t off = strtoul(w[1].c_str(), 0, 10);
+                size_t nm = strtoul(w[1].c_str(), 0, 10), off = 0;
+                if (!PC->bound.count(nm) || !PC->real_of(nm, off))
+                {
+                    o.result = "skip";
+                    o.fail("history cannot continue: cell " + s(nm) + " was never handed out");
+                    return;
+                }
+                PC->name_release(nm);
                 PC->live.erase(off);
                 ip.put(PC->zone->p + off);
                 o.tag("put");
@@ -1021,6 +1135,9 @@ static void run_op(const std::vector<std::string> &w, const std::string &, out &
         else if (op == "ca")
         {
             long i = strtol(w[1].c_str(), 0, 10);
+            // an index inside the pool names a cell (see NAMES): ask about the real cell behind the name
+            size_t off = 0;
+            if (i >= 0 && (size_t)i < PC->cap && PC->real_of((size_t)i * PC->e, off)) i = (long)(off / PC->e);
             bool r = ip.cell_is_allocated((int)i);
             o.result = r ? "1" : "0";
             bool ref = i >= 0 && (size_t)i < PC->cap && PC->live.count((size_t)i * PC->e);
@@ -1037,9 +1154,16 @@ static void run_op(const std::vector<std::string> &w, const std::string &, out &
             std::vector<size_t> seen;
             size_t steps = 0;
             for (auto it = ip.begin(); it != ip.end() && steps <= PC->cap; ++it, ++steps)
-            {
-                o.result += " " + s(it._num);
                 seen.push_back((size_t)((uint8_t *)*it - PC->zone->p));
+            // result line: the NAMES of the visited cells in ascending order (the ascending order of the real
+            // visit and its completeness are judged just below against the shadow map)
+            {
+                std::map<size_t, size_t> name_of;
+                for (auto &kv : PC->bound) name_of[kv.second] = kv.first;
+                std::vector<size_t> names;
+                for (size_t off : seen) names.push_back(name_of.count(off) ? name_of[off] / PC->e : 1000000 + off);
+                std::sort(names.begin(), names.end());
+                for (size_t nmi : names) o.result += " " + s(nmi);
             }
             std::vector<size_t> ref;
             for (auto &kv : PC->live) ref.push_back(kv.first);
@@ -1073,7 +1197,14 @@ static void run_op(const std::vector<std::string> &w, const std::string &, out &
                 if (SC->live.size() >= SC->cap) o.fail("non-null although Capacity objects are live");
                 if (sop_ctor_runs != c0 + 1 || sop_last_ctor != q) o.fail("create: the constructor did not run exactly once on the returned cell");
                 if (k >= 0) SC->live.insert({(size_t)k, off});
-                o.result = k <= 0 ? s(off) : s(k) + ":" + s(off);
+                if (k < 0 || SC->name_free.empty()) o.result = "?" + s(k) + ":" + s(off);
+                else
+                {
+                    SopCase::Cell nm = SC->name_free.back();
+                    SC->name_free.pop_back();
+                    SC->bound[nm] = {(size_t)k, off};
+                    o.result = nm.first == 0 ? s(nm.second) : s(nm.first) + ":" + s(nm.second);
+                }
                 o.tag(k > 0 ? "create-in-extra-zone" : "create");
             }
             else
@@ -1087,8 +1218,17 @@ static void run_op(const std::vector<std::string> &w, const std::string &, out &
         }
         else if (op == "d")
         {
-            size_t k = w.size() > 2 ? strtoul(w[1].c_str(), 0, 10) : 0;
-            size_t off = strtoul(w[w.size() > 2 ? 2 : 1].c_str(), 0, 10);
+            SopCase::Cell nm{w.size() > 2 ? strtoul(w[1].c_str(), 0, 10) : 0, strtoul(w[w.size() > 2 ? 2 : 1].c_str(), 0, 10)};
+            auto itb = SC->bound.find(nm);
+            if (itb == SC->bound.end())
+            {
+                o.result = "skip";
+                o.fail("history cannot continue: this object was never created");
+                return;
+            }
+            size_t k = itb->second.first, off = itb->second.second;
+            SC->bound.erase(itb);
+            SC->name_free.push_back(nm);
             SC->live.erase({k, off});
             void *q = SC->zbase(k) + off;
             p.destroy(q);
@@ -1105,6 +1245,7 @@ static void run_op(const std::vector<std::string> &w, const std::string &, out &
             SC->extra.push_back({z, n});
             size_t before = p.avail();
             p.engage(z, n);
+            SC->names_engage(SC->extra.size(), n, p.storage());
             SC->cap += n;
             o.result = s(p.avail());
             if (p.avail() != before + n) o.fail("pool_engage(freelist(), " + s(n) + " cells): avail " + s(before) + " -> " + s(p.avail()));
